@@ -28,7 +28,7 @@ SBytes(o) == IF o.some = 0 THEN Seg("len32", -1, <<255, 255, 255, 255>>) ELSE SI
 SStringList(l) == SShort("count16", Len(l)) \o Concat([i \in 1..Len(l) |-> SString(l[i])])
 SInet(ip, port) == SByte("inetlen", Len(ip)) \o SRaw(ip) \o SInt("int", port)
 \* two's complement of a possibly negative 32-bit value
-SIntS(tag, n) == Seg(tag, n, IF n >= 0 THEN Int32(n) ELSE Int32(4294967296 + n))
+SIntS(tag, n) == Seg(tag, n, IF n >= 0 THEN Int32(n) ELSE [Int32(n + 2147483647 + 1) EXCEPT ![1] = @ + 128])     \* (TLC integers are 32-bit)
 Bytes(segs) == Concat([i \in 1..Len(segs) |-> segs[i].b])
 
 (********************************* types ***********************************)
@@ -154,5 +154,5 @@ Repl(s) ==
 \* all single-field mutants of a frame (same size; the header is left as it was)
 MutantsAt(segs, i) == {[segs EXCEPT ![i].b = nb] : nb \in Repl(segs[i]) \ {segs[i].b}}
 \* nesting deepened: the type id at segment i is preceded by n list type ids (frame length recomputed)
-Deepen(segs, i, n) == Reframe(SubSeq(segs, 1, i - 1) \o Seg("raw", 0, Concat([j \in 1..n |-> <<0, 32>>])) \o SubSeq(segs, i, Len(segs)))
+Deepen(segs, i, n) == Reframe(SubSeq(segs, 1, i - 1) \o Seg("raw", 0, [j \in 1..(2 * n) |-> IF j % 2 = 1 THEN 0 ELSE 32]) \o SubSeq(segs, i, Len(segs)))
 =============================================================================
